@@ -16,6 +16,22 @@ runs for that wrapper) and a theorem here that identifies it with `retry` / `exe
 `run_batch_operation_eq`, `run_paginated_eq`). The per-item batch `run_cloud_io_batch` is specified exactly
 (`io_batch_step`, `io_batch_exact`, `io_batch_calls_determined`); `never_retry_batch_excluded` shows that the
 exact statements rule out an implementation the former existential bound admitted.
+
+Scope. Modelled and run: every public function of `src/helpers/cloud.rs` — the six entry points of the
+property's `observe_at` and, although the property does not name them, `run_with_timeout_and_retry`,
+`run_cloud_io_with_retry(_and_timeout)`, `run_cloud_io_paginated`, `run_parallel` (`run_parallel_*`: the code is
+sequential, stops at the first failure, drops the earlier values — its doc comment promises otherwise, which is
+outside this property) and `run_with_context` (`run_with_context_spec`). `BatchConfig.parallel` is a field the
+code never reads (`run_batch_parallel_irrelevant`); the harness generates both values.
+Not modelled: `OperationContext.start_time` / `elapsed()` (a time stamp); `u32` wrap-around of the attempt and
+page counters (2³² attempts / pages) and of `retry_count`; `ConnectionPool`, credentials / URI helpers of
+`utils.rs` (not part of the property).
+
+Time. `sleeps` are the values of `delay_ms` at the `thread::sleep` statement and the timeout theorems are over
+the nominal clock `elapsedOf` (scripted call durations + those waits). Lean cannot speak about the machine's
+clock; that the real wait between two attempts is the reported one (never shorter; after the first never above
+the cap beyond scheduling noise) is measured by the harness on the running code, each verdict confirmed by
+re-execution (`harness/src/c18.rs`, header "REAL TIME").
 -/
 namespace IB.Cloud
 
@@ -622,6 +638,91 @@ theorem io_batch_error_is_last (c : RetryConfig) (items : List ι) (script : Lis
     1 ≤ (ioBatch c items script).calls.length ∧
       script[(ioBatch c items script).calls.length - 1]? = some (.error e) :=
   ioBatch_error_is_last c items script e h
+
+/-! ## `run_parallel` and `run_with_context` (`helpers/cloud.rs:196`, `:454`)
+
+Not named by the property's `observe_at`, but public entry points of an anchored file; modelled from the code
+that exists and run by the harness (request kinds `PARALLEL`, `CONTEXT`). -/
+
+/-- All operations succeed: each is invoked exactly once, in order, and their values are returned in order. -/
+theorem run_parallel_all_ok (vs : List α) :
+    (runParallel (vs.map (Except.ok : α → Res α))).calls = List.range vs.length ∧
+    (runParallel (vs.map (Except.ok : α → Res α))).outcome = .ok vs := by
+  have h := parLoop_all_ok vs 0
+  exact ⟨by rw [List.range_eq_range']; exact h.1, h.2⟩
+
+/-- Some operation fails: the operations up to and including the FIRST failing one are invoked exactly once
+    each, in order, no later one is invoked (whatever it would have answered), and that first error is
+    returned. -/
+theorem run_parallel_first_error (vs : List α) (e : Err) (rest : List (Res α)) :
+    (runParallel (vs.map (Except.ok : α → Res α) ++ .error e :: rest)).calls = List.range (vs.length + 1) ∧
+    (runParallel (vs.map (Except.ok : α → Res α) ++ .error e :: rest)).outcome = .error e := by
+  have h := parLoop_first_error vs e rest 0
+  exact ⟨by rw [List.range_eq_range']; exact h.1, h.2⟩
+
+/-- … and these two cases are all there is, so `run_parallel` is determined on every input. -/
+theorem run_parallel_cases (ops : List (Res α)) :
+    (∃ vs : List α, ops = vs.map Except.ok) ∨
+    (∃ (vs : List α) (e : Err) (rest : List (Res α)), ops = vs.map Except.ok ++ .error e :: rest) :=
+  outcomes_cases ops
+
+/-- `run_with_context` applies the operation exactly once to the context it was given: on success the caller
+    gets the operation's value together with the context exactly as the operation left it; on failure the
+    operation's own error (the context is dropped). -/
+theorem run_with_context_spec (ctx : OperationContext) (op : OperationContext → OperationContext × Res α) :
+    (∀ v, (op ctx).2 = .ok v → runWithContext ctx op = .ok (v, (op ctx).1)) ∧
+    (∀ e, (op ctx).2 = .error e → runWithContext ctx op = .error e) := by
+  unfold runWithContext
+  rcases h : op ctx with ⟨c', r⟩
+  cases r with
+  | ok v => exact ⟨fun v' hv => by simp at hv; subst hv; rfl, fun e he => by simp at he⟩
+  | error e => exact ⟨fun v hv => by simp at hv, fun e' he => by simp at he; subst he; rfl⟩
+
+/-- `HashMap::insert` as modelled: after `add_metadata(k, v)` key `k` maps to `v` (the last write wins) and
+    every other key is untouched; the other fields are untouched. -/
+theorem context_add_metadata (c : OperationContext) (k v k' : String) :
+    (c.addMetadata k v).metadata.lookup k' = (if k' = k then some v else c.metadata.lookup k') ∧
+    (c.addMetadata k v).retryCount = c.retryCount ∧ (c.addMetadata k v).operationName = c.operationName ∧
+    c.incrementRetry.retryCount = c.retryCount + 1 ∧ c.incrementRetry.metadata = c.metadata := by
+  refine ⟨?_, rfl, rfl, rfl, rfl⟩
+  obtain ⟨nm, rc, md⟩ := c
+  simp only [OperationContext.addMetadata]
+  induction md with
+  | nil => by_cases h : k' = k <;> simp [List.lookup, h]
+  | cons p ps ih =>
+    obtain ⟨a, b⟩ := p
+    by_cases ha : a = k
+    · subst ha
+      by_cases h : k' = a
+      · subst h; simpa [List.filter, List.lookup] using ih
+      · have : (k' == a) = false := by simpa using h
+        simpa [List.filter, List.lookup, h, this] using ih
+    · have hne : (a != k) = true := by simpa using ha
+      by_cases h : k' = k
+      · subst h
+        have : (k' == a) = false := by simpa using (fun h' => ha (h'.symm))
+        simpa [List.filter, hne, List.lookup, this] using ih
+      · by_cases hk : k' = a
+        · subst hk; simp [List.filter, hne, List.lookup, h]
+        · have : (k' == a) = false := by simpa using hk
+          simpa [List.filter, hne, List.lookup, this, h] using ih
+
+/-- `BatchConfig.parallel` has no influence on `run_batch_operation` (the flag is never read). -/
+theorem run_batch_parallel_irrelevant (items : List α) (size : Nat) (f : Nat → List α → Res (List β)) :
+    runBatchOperation items ⟨size, true⟩ f = runBatchOperation items ⟨size, false⟩ f := rfl
+
+/-- witnesses: the third operation fails, the fourth is never invoked; a context round trip -/
+example :
+    (runParallel [(.ok 1 : Res Nat), .ok 2, .error ⟨.network, 7⟩, .ok 4]).calls = [0, 1, 2] ∧
+    (runParallel [(.ok 1 : Res Nat), .ok 2, .error ⟨.network, 7⟩, .ok 4]).outcome = .error ⟨.network, 7⟩ ∧
+    (runParallel [(.ok 1 : Res Nat), .ok 2]).outcome = .ok [1, 2] := by
+  refine ⟨by decide, rfl, rfl⟩
+
+example :
+    runWithContext (OperationContext.new "up")
+      (fun c => (((c.addMetadata "a" "x").incrementRetry).addMetadata "a" "y", (.ok 5 : Res Nat)))
+      = .ok (5, ⟨"up", 1, [("a", "y")]⟩) := by
+  simp [runWithContext, OperationContext.new, OperationContext.addMetadata, OperationContext.incrementRetry]
 
 /-! ## non-vacuity examples and concrete witnesses (tests, not the theorems) -/
 
